@@ -179,6 +179,14 @@ def gen_cases(rng, tier):
     # hand-wired flows: nodes triggered more than once, `If` branches (oracle only)
     for _ in range(120 if quick else 2500):
         yield gen_flow_case(rng, N.EXCEPTIONS)
+    # real executors: ThreadPoolExecutor and the library's own CloudpickleProcessPoolExecutor (a real, spawned process)
+    rx_classes = ["Boom", "MyKeyError", "IndexError", "ValueError", "CustomError", "StopIteration", "NotReadyError",
+                  "MyLookupError", "ZeroDivisionError", "FailedChildError"]
+    for ex, wheres, count in (("thread", ("child", "in-macro", "macro"), 4 if quick else 30),
+                              ("cloudproc", ("child", "in-macro"), 3 if quick else 24)):
+        for _ in range(count):
+            yield {"kind": "rx", "executor": ex, "where": rng.choice(wheres), "exc": rng.choice(rx_classes),
+                   "prerun": rng.random() < 0.5}
     # kinds of raised objects x local/executor at every level of the path x depth: the whole table
     import itertools
 
